@@ -24,10 +24,12 @@ package store
 //	                                         snapshot opened (Store.Open) and handed to the REAL fsmRestore,
 //	                                         log entries after it re-applied
 //
-// in a PAGE-VERSION abstraction: the database is (lineage, version of page 0, version of page 1);
-// a write batch sets one page to a fresh version; a WAL file is the token "these pages at these
-// versions, cut from lineage l by checkpoint number q"; a database file is the token "lineage l,
-// both page versions, as of checkpoint number q".
+// in a PAGE-VERSION abstraction: the database is (lineage; for page 0 and page 1: version, number
+// of times written); a write batch sets one page (or both: the page-heavy batch) to a fresh version
+// AND increments its write count - so applying an entry twice is visible, as it is for an INSERT
+// or "SET n = n + 1"; a WAL file is the token "these pages with these contents, cut from lineage l
+// by checkpoint number q"; a database file is the token "lineage l, both pages, as of checkpoint
+// number q".
 //
 // Symbolic run: file system, SQLite handle, Checkpointer, protobuf and CRC are models (fsmodel.go).
 // Native replay: a real temporary directory, a real SQLite database (tables t0, t1, lin), the real
@@ -64,6 +66,7 @@ import (
 type vcState struct {
 	lin int    // lineage: which database this is (0 = the one the node started with, a LOAD makes a new one)
 	p   [2]int // version of page 0 / page 1 (0 = never written)
+	c   [2]int // how many write batches have been applied to page 0 / page 1
 }
 
 // vcTag is the provenance of a file.
@@ -76,22 +79,50 @@ type vcTag struct {
 var vcDBMagic = []byte("SQLite format 3\x00")
 var vcWALMagic = []byte{0x37, 0x7f, 0x06, 0x82, 0x00, 0x2d, 0xe2, 0x18}
 
+const (
+	vcDBTokLen  = 16 + 6 // magic, lineage, checkpoint number, 2 x (version, count)
+	vcWALTokLen = 8 + 8  // magic, lineage, checkpoint number, 2 x (present, version, count)
+)
+
 func vcDBBytes(st vcState, seq int) []byte {
 	b := append([]byte(nil), vcDBMagic...)
-	return append(b, byte(st.lin), byte(seq), byte(st.p[0]), byte(st.p[1]))
+	return append(b, byte(st.lin), byte(seq), byte(st.p[0]), byte(st.c[0]), byte(st.p[1]), byte(st.c[1]))
 }
 
-func vcWALBytes(lin, seq int, v [2]int, has [2]bool) []byte {
+func vcWALBytes(lin, seq int, v, c [2]int, has [2]bool) []byte {
 	b := append([]byte(nil), vcWALMagic...)
 	b = append(b, byte(lin), byte(seq))
 	for i := 0; i < 2; i++ {
 		if has[i] {
-			b = append(b, 1, byte(v[i]))
+			b = append(b, 1, byte(v[i]), byte(c[i]))
 		} else {
-			b = append(b, 0, 0)
+			b = append(b, 0, 0, 0)
 		}
 	}
 	return b
+}
+
+// vcDecodeDB reads a database token.
+func vcDecodeDB(data []byte) (st vcState, seq int, ok bool) {
+	if len(data) != vcDBTokLen || string(data[:16]) != string(vcDBMagic) {
+		return vcState{}, 0, false
+	}
+	d := data[16:]
+	return vcState{lin: int(d[0]), p: [2]int{int(d[2]), int(d[4])}, c: [2]int{int(d[3]), int(d[5])}}, int(d[1]), true
+}
+
+// vcFoldWAL applies a WAL token to st (what replaying / checkpointing that WAL does to a database).
+func vcFoldWAL(st *vcState, data []byte) (lin, seq int, ok bool) {
+	if len(data) != vcWALTokLen {
+		return 0, 0, false
+	}
+	w := data[8:]
+	for i := 0; i < 2; i++ {
+		if w[2+3*i] == 1 {
+			st.p[i], st.c[i] = int(w[3+3*i]), int(w[4+3*i])
+		}
+	}
+	return int(w[0]), int(w[1]), true
 }
 
 // ---------------------------------------------------------------- environment (both worlds)
@@ -109,6 +140,7 @@ type vcEnv struct {
 	// symbolic world: the database
 	mainSt vcState
 	wal    [2]int
+	walC   [2]int
 	walHas [2]bool
 	mt     int64 // modification-time counter
 
@@ -242,19 +274,24 @@ func (e *vcEnv) syncWALFile() {
 		vcMust(err)
 	}
 	if e.walHas[0] || e.walHas[1] {
-		n.data = vcWALBytes(e.mainSt.lin, 0, e.wal, e.walHas)
+		n.data = vcWALBytes(e.mainSt.lin, 0, e.wal, e.walC, e.walHas)
 	} else {
 		n.data = nil
 	}
 }
 
-// write: one applied write batch that touches one page.
+// write: one applied write batch that touches one page (page 2 = both pages, one transaction).
 func (e *vcEnv) write(page, ver int) {
 	if !verifSymbolic() {
 		e.nativeWrite(page, ver)
 		return
 	}
-	e.wal[page], e.walHas[page] = ver, true
+	cur, _ := e.liveState()
+	for i := 0; i < 2; i++ {
+		if page == i || page == 2 {
+			e.wal[i], e.walC[i], e.walHas[i] = ver, cur.c[i]+1, true
+		}
+	}
 	e.syncWALFile()
 }
 
@@ -310,7 +347,7 @@ func (e *vcEnv) liveState() (vcState, bool) {
 	st := e.mainSt
 	for i := 0; i < 2; i++ {
 		if e.walHas[i] {
-			st.p[i] = e.wal[i]
+			st.p[i], st.c[i] = e.wal[i], e.walC[i]
 		}
 	}
 	return st, true
@@ -334,7 +371,7 @@ func (c *vcCkpt) Checkpoint(w io.Writer, timeout time.Duration) (*sql.Checkpoint
 		return &sql.CheckpointManagerMeta{}, 0, nil
 	}
 	if w != nil {
-		if _, err := w.Write(vcWALBytes(e.mainSt.lin, e.seq+1, e.wal, e.walHas)); err != nil {
+		if _, err := w.Write(vcWALBytes(e.mainSt.lin, e.seq+1, e.wal, e.walC, e.walHas)); err != nil {
 			return nil, 0, err
 		}
 	}
@@ -348,7 +385,7 @@ func (c *vcCkpt) Checkpoint(w io.Writer, timeout time.Duration) (*sql.Checkpoint
 	var moved int64
 	for i := 0; i < 2; i++ {
 		if e.walHas[i] {
-			e.mainSt.p[i] = e.wal[i]
+			e.mainSt.p[i], e.mainSt.c[i] = e.wal[i], e.walC[i]
 			moved++
 		}
 	}
@@ -370,11 +407,11 @@ func (e *vcEnv) tagDB(path string) vcTag {
 		return e.tags[vcFileSum(path)]
 	}
 	n, ok := vcFS.nodes[path]
-	if !ok || len(n.data) != len(vcDBMagic)+4 {
+	if !ok {
 		return vcTag{}
 	}
-	d := n.data[len(vcDBMagic):]
-	return vcTag{ok: true, lin: int(d[0]), seq: int(d[1])}
+	st, seq, ok := vcDecodeDB(n.data)
+	return vcTag{ok: ok, lin: st.lin, seq: seq}
 }
 
 func (e *vcEnv) tagWAL(path string) vcTag {
@@ -382,11 +419,12 @@ func (e *vcEnv) tagWAL(path string) vcTag {
 		return e.tags[vcFileSum(path)]
 	}
 	n, ok := vcFS.nodes[path]
-	if !ok || len(n.data) != len(vcWALMagic)+6 {
+	if !ok {
 		return vcTag{}
 	}
-	d := n.data[len(vcWALMagic):]
-	return vcTag{ok: true, lin: int(d[0]), seq: int(d[1])}
+	var scratch vcState
+	lin, seq, ok := vcFoldWAL(&scratch, n.data)
+	return vcTag{ok: ok, lin: lin, seq: seq}
 }
 
 // restore: the database a node gets from snapshot id. Symbolic: the base token with the WAL
@@ -397,21 +435,20 @@ func (e *vcEnv) restore(id string, dbFile string, walFiles []string) (vcState, b
 		return e.nativeRestore(id)
 	}
 	n, ok := vcFS.nodes[dbFile]
-	if !ok || len(n.data) != len(vcDBMagic)+4 {
+	if !ok {
 		return vcState{}, false
 	}
-	d := n.data[len(vcDBMagic):]
-	st := vcState{lin: int(d[0]), p: [2]int{int(d[2]), int(d[3])}}
+	st, _, ok := vcDecodeDB(n.data)
+	if !ok {
+		return vcState{}, false
+	}
 	for _, wp := range walFiles {
 		wn, ok := vcFS.nodes[wp]
-		if !ok || len(wn.data) != len(vcWALMagic)+6 {
+		if !ok {
 			return vcState{}, false
 		}
-		w := wn.data[len(vcWALMagic):]
-		for i := 0; i < 2; i++ {
-			if w[2+2*i] == 1 {
-				st.p[i] = int(w[3+2*i])
-			}
+		if _, _, ok := vcFoldWAL(&st, wn.data); !ok {
+			return vcState{}, false
 		}
 	}
 	return st, true
@@ -470,12 +507,19 @@ func (h *vcHist) applyEntry(en vcEntry) {
 	}
 }
 
+// write: one write batch is applied: page 0, page 1, or (page 2) both pages in one transaction -
+// the page-heavy batch.
 func (h *vcHist) write(page int) {
 	h.applied++
 	en := vcEntry{kind: vcWrite, page: page, ver: h.applied}
 	h.log = append(h.log, en)
 	h.applyEntry(en)
-	h.live.p[page] = en.ver
+	for i := 0; i < 2; i++ {
+		if page == i || page == 2 {
+			h.live.p[i] = en.ver
+			h.live.c[i]++
+		}
+	}
 	h.stateAt = append(h.stateAt, h.live)
 }
 
@@ -529,7 +573,7 @@ func (h *vcHist) boot() {
 func (h *vcHist) install() {
 	s := h.e.s
 	idx := uint64(h.applied + 1)
-	img := vcState{lin: h.live.lin, p: [2]int{int(idx), int(idx)}}
+	img := vcState{lin: h.live.lin, p: [2]int{int(idx), int(idx)}, c: [2]int{h.live.c[0] + 1, h.live.c[1] + 1}}
 	vcTick()
 	retained := h.stagedWALs() > 0
 	src := h.e.leaderImage(img)
@@ -727,8 +771,15 @@ func (h *vcHist) checkNewest(tag string, wantIdx uint64) (vcState, uint64, bool)
 	if len(walFiles) >= 3 && !stale {
 		verifReach("chain-of-three-wals")
 	}
+	if stale && h.retainedAtInstall {
+		// Recorded defect: fsmRestore (follower snapshot install) replaces the database but leaves
+		// the WAL staging directory alone: a staged WAL file retained after a skipped / failed
+		// Persist survives the install and is moved into the next incremental snapshot, on top
+		// of the installed (newer) base.
+		verifFinding("C04-install-keeps-staged-wal")
+	}
 	if stale {
-		// Recorded defect: a staged WAL file retained after a skipped / failed Persist is still in
+		// Recorded defect (fixed in b1fa822): a staged WAL file retained after a skipped / failed Persist is still in
 		// the staging directory when the NEXT snapshot is a full one (the full branch of
 		// fsmSnapshot does not clear it) and is then moved into the following incremental
 		// snapshot, on top of a base that is newer than it (or of another database).
@@ -761,10 +812,8 @@ func (h *vcHist) restart() {
 		h.e.nativeClose()
 	}
 	h.e.lastRestored = ""
-	println("R1")
 	h.e.openStore()
 	got, idx, any := h.checkNewest("restart", 0)
-	println("R2")
 	if !any {
 		got, idx = vcState{}, 0
 	}
@@ -772,16 +821,13 @@ func (h *vcHist) restart() {
 	h.e.seq++
 	h.e.resetDB(vcState{})
 	h.e.attachDB()
-	println("R3")
 	if any {
 		// ... into which raft restores the newest snapshot: SnapshotStore.List, Open, FSM.Restore
 		metas, err := h.e.snaps.List()
 		verifAssert("C04-restart-list-ok", err == nil && len(metas) == 1)
 		_, rc, err := h.e.snaps.Open(metas[0].ID)
-		println("R4")
 		verifAssert("C04-restart-open-ok", err == nil)
 		rerr := NewFSM(h.e.s).Restore(rc)
-		println("R5")
 		rc.Close()
 		verifAssert("C04-restart-restore-ok", rerr == nil)
 		h.e.lin = got.lin
